@@ -277,6 +277,9 @@ func c02(r *h.Result, rng *h.Rng, tier string, replay string) error {
 			return err
 		}
 		rep = loadReplayScenario(replay)
+		if doc := loadReplayDoc(replay); rep != nil && doc != nil && doc["stream"] == "inflight" {
+			return c02Inflight(r, rng.Fork(), 0, rep)
+		}
 		if rep == nil {
 			if doc := loadReplayDoc(replay); doc != nil && doc["stream"] == "lock-probe" {
 				return c02ReplayProbe(r, rng.Fork(), doc, "C02/")
@@ -287,7 +290,7 @@ func c02(r *h.Result, rng *h.Rng, tier string, replay string) error {
 	if tier == "thorough" || tier == "search" {
 		nScen, maxOps, connFail, nProm = 2400, 120, 100, 1500
 	}
-	r.Rule = "svc: as C01 (own seed): op sequences over the six tables with requests of 0–50 rows (thorough: also 10⁴), 12 % of the sequences may contain non-rectangular or wrongly typed requests (compared with the model only); non-trivial = at least one request and one Do; distinct by implementation event log. prom: 1–4 series with lengths drawn around the flush limit {0,1,2,10,499..501,999..1001,1999..2001,random ≤3000}; non-trivial = a flush happens inside a series"
+	r.Rule = "svc: as C01 (own seed): op sequences over the six tables with requests of 0–50 rows (thorough: also 10⁴), 12 % of the sequences may contain non-rectangular or wrongly typed requests (compared with the model only); non-trivial = at least one request and one Do; distinct by implementation event log. prom: 1–4 series with lengths drawn around the flush limit {0,1,2,10,499..501,999..1001,1999..2001,random ≤3000}; non-trivial = a flush happens inside a series. inflight: 2–5 flushes of one sub-service, each INSERT held in flight while 0, 1, 2, as many as / one / three more than the batch in flight further requests of 1–3 rows are issued (every other scenario: part of them while the flusher is held in OnBeforeInsert); consecutive INSERT outcomes differ in 85 % of the steps; non-trivial = a request issued during an INSERT and at least 2 blocks"
 	r.Stream("svc: the six real insert services driven step by step vs Batcher.Multi.run; every decoded block (per-column values) is compared and judged")
 	if err := runSvcStream(r, rng.Fork(), nScen, maxOps, connFail, tier != "quick", rep, judgeC02); err != nil {
 		return err
@@ -296,6 +299,13 @@ func c02(r *h.Result, rng *h.Rng, tier string, replay string) error {
 		return nil
 	}
 	if err := c02Prom(r, rng.Fork(), nProm); err != nil {
+		return err
+	}
+	nFlight := 120
+	if tier != "quick" {
+		nFlight = 1500
+	}
+	if err := c02Inflight(r, rng.Fork(), nFlight, nil); err != nil {
 		return err
 	}
 	rounds, iters := 12, 120
